@@ -1145,3 +1145,16 @@ pub fn search_loop_other_slice_panics(s: &[u32], o: &[u32], t: u32) -> u32 {
     }
     o[r]
 }
+
+// s[s.iter().position(P).unwrap()] : the index is in range whenever the unwrap returns
+pub fn position_unwrap_index_safe_but_unwrap_panics(s: &[u32], t: u32) -> u32 {
+    let i = s.iter().position(|&x| x > t).unwrap();
+    s[i]
+}
+pub fn position_unwrap_other_slice_panics(s: &[u32], o: &[u32], t: u32) -> u32 {
+    if s.iter().all(|&x| x <= t) {
+        return 0;
+    }
+    let i = s.iter().position(|&x| x > t).unwrap();
+    o[i]
+}
